@@ -71,6 +71,11 @@ pub fn gen_case(rng: &mut Rng, i: usize, maxrecs: usize) -> CovCase {
         }
         return CovCase { k: 17, bs: 2, bc: 5, norm: false, threads: 3, mem: 6.0, delim: " ", recs, crecs: None, cfq: false };
     }
+    if i % 10 == 6 {
+        // bin size x (bin count - 1) passes 2^64: every multiplicity is far below the bin size, so everything lands in bin 0
+        let recs = vec![b"ACGTACGTTTGACCA".to_vec(), b"AAAAAAAAAA".to_vec(), b"ACGTN".to_vec()];
+        return CovCase { k: 3, bs: 1 << 62, bc: *rng.pick(&[5usize, 16, 9]), norm: i % 20 == 6, threads: 2, mem: 6.0, delim: " ", recs, crecs: None, cfq: false };
+    }
     if i % 10 == 8 {
         // multiplicities that are exact multiples of an awkward bin size (49, 98, 103, 107: 1/bs is not exact in binary)
         let bs = *rng.pick(&[49usize, 98, 103, 107]);
